@@ -361,7 +361,12 @@ async def more_runs_then_nonces(root, kb, settings, problems, markers):
         await r.delete_snapshots([s1.name], confirm=False)
         await r.clean()
         await r.snapshot(paths=[fresh], note='a-very-private-note')
+        # a snapshot of an EMPTY tree: no chunk, no file - the snapshot object (note, timestamp) is sealed like any other
+        nothing = root / 'empty_tree'
+        (nothing / 'sub').mkdir(parents=True)
+        await r.snapshot(paths=[nothing], note='a-very-private-note')
     await r.close()
+    scan(root, kb, markers, problems)
     harvest()
     # MANY encryptions by ONE cipher object (a long-lived client taking 100 snapshots of a changing tiny file: > 300 nonces from the
     # same object, 100 of them under the user key): still no nonce twice
